@@ -7,9 +7,11 @@ import "github.com/richardwilkes/toolbox/rate"
 // White-box build: go/overlay/c16_rate_hook.go is compiled into package rate.
 const whiteBox = true
 
+func (h *history) setup() {}
+
 // sentinel injects a request on a detached closed dummy limiter; the next tick (or the final drain) answers it without
 // touching the tree.
-func (h *history) sentinel() <-chan error { return rate.VerifSentinel(h.root) }
+func (h *history) sentinel() (<-chan error, func()) { return rate.VerifSentinel(h.root), nil }
 
 func lockTree(l rate.Limiter)          { rate.VerifLock(l) }
 func unlockTree(l rate.Limiter)        { rate.VerifUnlock(l) }
